@@ -539,6 +539,59 @@ def run(ctx):
             bad = [r for r in recs if r[0] != '1' or not (want - 1 <= int(r[1]) <= want + 1)]
             if bad:
                 ctx.violation('C18|loc|widened-literal-after-include', '.loc records of `%s` on line %d of file 1: %s' % (stmt, want, bad[:4]), files={'wl.c': srcw, 'wl_hdr.h': open(os.path.join(wl, 'wl_hdr.h')).read()})
+    # diagnostics after a #line directive: every phase that can report an error names the physical file and the physical line it quotes
+    dl = os.path.join(work, 'dline')
+    os.makedirs(dl, exist_ok=True)
+    open(os.path.join(dl, 'dl_hdr.h'), 'w').write('\n#line 90 "hdr_generated.y"\n\nextern int dl_hdr_decl;\n')
+    plants = [('preprocess', '#error planted'), ('preprocess-directive', '#include "no/such/file.h"'), ('tokenize', 'int pl = 0x;'), ('tokenize-char', "int pl = '';"),
+              ('parse', 'int pl(void) { return undeclared_name; }'), ('parse-syntax', 'int pl(void) { return 1 +; }'), ('codegen', 'void pl(void) { 1 = 2; }'),
+              ('macro-arg', '#define ID(x) x\nint pl(void) { return ID(undeclared_name); }'), ('after-header-with-line', '#include "dl_hdr.h"\nint pl(void) { return undeclared_name; }')]
+    for (fname, d) in forms + [('none', '')]:
+        for (phase, text) in plants:
+            nb = rng.randrange(0, 5)
+            pre = 'int before_directive;\n' * rng.randrange(1, 4) + (d + '\n' if d else '') + '\n' * nb
+            body = '#define BASE 2000\n#define BASE2 \\\n  2500\n#define FNAME "baz.c"\n' + pre + text + '\n'
+            want = body.count('\n')          # the planted construct ends on the last line
+            pd = os.path.join(dl, 'dl_%s_%s.c' % (fname, phase))
+            open(pd, 'w').write(body)
+            rd = core.sh([cc, '-S', '-o', '/dev/null', pd], cwd=dl, timeout=60)
+            et = rd[2].decode('utf-8', 'replace')
+            ctx.evaluations += 1
+            ctx.count('diagnostics_checked')
+            ctx.count('line_directive_diagnostics')
+            ctx.saw('diag-after-line-directive:%s:%s' % (fname, phase))
+            m5 = re.match(r'(.*?):(\d+): ', et)
+            fl = {'dl.c': body, 'dl_hdr.h': open(os.path.join(dl, 'dl_hdr.h')).read()}
+            sc5 = '$CHIBICC -S -o /dev/null dl.c 2>&1 | head -1 | grep -q "^dl.c:%d: " && exit 0; exit 1' % want
+            if rd[0] == 0 or not m5:
+                ctx.violation('C18|diag|after-line-directive|%s|no-located-diagnostic' % phase, 'form %s: exit %s, stderr %s' % (fname, rd[0], et[:160]), files=fl, script=sc5)
+            elif os.path.basename(m5.group(1)) != os.path.basename(pd):
+                ctx.violation('C18|diag|after-line-directive|%s|wrong-file' % phase, 'form %s: error planted in %s:%d reported as %s' % (fname, os.path.basename(pd), want, core.first_line(et)), files=fl, script=sc5)
+            elif int(m5.group(2)) != want:
+                ctx.violation('C18|diag|after-line-directive|%s|line-off' % phase, 'form %s: error planted in %s:%d reported as %s' % (fname, os.path.basename(pd), want, core.first_line(et)), files=fl, script=sc5)
+            os.unlink(pd)
+    # code on the very first physical line of a file and of a header: it needs a line record like any other line
+    open(os.path.join(dl, 'one.h'), 'w').write('static inline int one_h(int x) { return x + 1; }\n')
+    for (tag, srcf) in [('first-line-of-main-file', 'int first(int x) { return x * 2; }\nint second(int x) {\n  return x + 3;\n}\n'),
+                        ('first-line-of-header', '\n#include "one.h"\nint user(int x) { return one_h(x); }\n')]:
+        pf1 = os.path.join(dl, 'fl_%s.c' % tag)
+        open(pf1, 'w').write(srcf)
+        r1 = core.sh([cc, '-S', '-o', '-', pf1], cwd=dl, timeout=60)
+        ctx.evaluations += 1
+        ctx.saw('loc:' + tag)
+        if r1[0] != 0:
+            ctx.violation('C18|loc|%s|rejected' % tag, core.first_line(r1[2].decode('utf-8', 'replace')), files={'fl.c': srcf})
+            continue
+        asm = r1[1].decode('utf-8', 'replace')
+        fn = 'one_h' if 'header' in tag else 'first'
+        fno = '2' if 'header' in tag else '1'
+        seg = asm.split('\n%s:\n' % fn)[-1].split('.L.return.%s:' % fn)[0]
+        recs = re.findall(r'\.loc (\d+) (\d+)', seg)
+        ctx.count('loc_records_checked', len(recs))
+        if (fno, '1') not in recs:
+            ctx.violation('C18|loc|%s|no-record-for-line-1' % tag, 'the body of %s() stands on line 1 of file %s but its code has the line records %s' % (fn, fno, sorted(set(recs))[:6]), files={'fl.c': srcf, 'one.h': open(os.path.join(dl, 'one.h')).read()},
+                          script='$CHIBICC -S -o- fl.c | grep -q "\\.loc %s 1$" && exit 0; exit 1' % fno)
+        os.unlink(pf1)
     # open finding: a macro defined before a #line directive and used after it - its body tokens are numbered "definition line + current delta"
     src2 = '#define STR(x) #x\nvoid OUTS(long, const char *);\nint main(void) {\n\n\n#line 700\n  OUTS(2, STR(b));\n  return 0;\n}\n'
     p2 = os.path.join(work, 'lineprobe2.c')
